@@ -141,6 +141,7 @@ pub fn build_scheduled(c: &BuiltCase, schedule: &mut Rng) -> Option<(ModuleGraph
     unstable_text_imports: c.unstable.1,
     unstable_css_imports: c.unstable.2,
     passthrough_jsr_specifiers: c.world.passthrough_jsr,
+    resolver: c.world.resolver.as_ref().map(|r| r as &dyn deno_graph::source::Resolver),
     npm_resolver: npm.as_ref().map(|r| r as &dyn deno_graph::source::NpmResolver),
     executor: &exec,
     ..Default::default()
